@@ -17,6 +17,10 @@ File == [s \in Settings |-> IF s \in fileP THEN Val("file", s) ELSE Absent]
 MOverride == [s \in Settings |-> IF Cli[s] # Absent THEN Cli[s] ELSE File[s]]
 ModelAgrees == MOverride = Effective(Cli, File)
 
-Emit == PrintT(<<"REPLAY", ToJson([cli |-> Cli, file |-> File, disc |-> disc, effective |-> Effective(Cli, File),
+\* discovery: the file named by -c ("flag"), or typeshare.toml found in the working directory / an ancestor. In the
+\* "flag_over_*" discoveries BOTH exist: the -c file holds `File`, and a decoy typeshare.toml with other values for every
+\* setting lies in the working directory / its parent. The file the user names is the configuration (P: File, never the decoy).
+HasDecoy == disc \in {"flag_over_cwd", "flag_over_parent"}
+Emit == PrintT(<<"REPLAY", ToJson([cli |-> Cli, file |-> File, disc |-> disc, decoy |-> HasDecoy, effective |-> Effective(Cli, File),
                                    gen |-> Effective(Cli, NoFile)])>>)
 =============================================================================
